@@ -8,6 +8,7 @@ namespace Container
 def Op.stores : Op → List Name
   | .computeMetric name _ _ _ => [name]
   | .addMetric name _ => [name]
+  | .addFromInt name _ => [name]
   | .computeTimings => ["start_sample".toList, "stop_sample".toList, "duration".toList]
   | .computeChainMetric name _ _ _ => [name]
   | .computeChainTimings => ["chain_start".toList, "chain_end".toList, "chain_len_samples".toList,
@@ -74,6 +75,8 @@ theorem tracked_step (F : List Char → Option Rat) (s : State) (op : Op) (hI : 
     exact computeMetric_preserves Tracked _ _ _ _ _ h
       (fun _ => addMetric_tracked _ _ _ h (by intro e; exact hop (by simp [Op.stores, e])))
   | addMetric name vals => exact addMetric_tracked _ _ _ h (by intro e; exact hop (by simp [Op.stores, e]))
+  | addFromInt name src =>
+    exact addFromInt_preserves Tracked _ _ _ h (fun _ => addMetric_tracked _ _ _ h (by intro e; exact hop (by simp [Op.stores, e])))
   | computeTimings =>
     apply seqOps_preserves Tracked _ _ s h
     intro o ho s' hs'
@@ -222,6 +225,8 @@ theorem synced_step (F : List Char → Option Rat) (s : State) (op : Op) (hI : I
   | computeMetric name vals f mode =>
     exact computeMetric_preserves (Synced F) _ _ _ _ _ h (fun v => (hadd s name v ⟨hI, h, rfl⟩ (by simp [Op.stores])).2.1)
   | addMetric name vals => exact (hadd s name _ ⟨hI, h, rfl⟩ (by simp [Op.stores])).2.1
+  | addFromInt name src =>
+    exact addFromInt_preserves (Synced F) _ _ _ h (fun _ => (hadd s name _ ⟨hI, h, rfl⟩ (by simp [Op.stores])).2.1)
   | computeTimings =>
     apply hseq
     intro o ho s' hs'
